@@ -20,14 +20,15 @@ EPOCH = datetime.datetime(2020, 1, 1)
 # MCRexMatch = <<{1}, {2,3}, {2,3,4,5}, {4}, {1..5}>>
 STRING_POOLS = [
     {'strings': ['', 'a', 'b', 'bc', 'bcd'],
-     'rex': ['^$', '^[a-b]$', '^[a-d]+$', '^bc$', '^.*$']},
+     'rex': ['^$', '^[a-b]$', '^[a-d]+$', '^bc', '^.*$']},
     {'strings': ['', 'é', 'ü', 'üñ', 'üñ\u2603'],
-     'rex': ['^$', '^[é-ü]$', '^[é-ü\u2603]+$', '^üñ$', '^.*$']},
+     'rex': ['^$', '^[é-ü]$', '^[é-ü\u2603]+$', '^üñ', '^.*$']},
     {'strings': ['', "'", '\\', '\\"', '\\"\U0001F600'],
-     'rex': ['^$', "^['\\\\]$", '^[\'\\\\"\U0001F600]+$', '^\\\\"$', '^.*$']},
+     'rex': ['^$', "^['\\\\]$", '^[\'\\\\"\U0001F600]+$', '^\\\\"', '^.*$']},
 ]
 STR_LEN = [0, 1, 1, 2, 3]
-REX_MATCH = [{1}, {2, 3}, {2, 3, 4, 5}, {4}, {1, 2, 3, 4, 5}]
+# the fourth expression has no trailing $: a value has to match from its start, not to its end
+REX_MATCH = [{1}, {2, 3}, {2, 3, 4, 5}, {4, 5}, {1, 2, 3, 4, 5}]
 
 DTYPE_VARIANTS = {
     'real': ['float64', 'Float64', 'float32'],
